@@ -45,7 +45,7 @@ func c06SchedScenarios(thorough bool) []c06Sched {
 			c06Sched{sc: &Scenario{Name: "R2c change and its rollback on T1 (offline; connects at any time); one step split", Cfg: one, Prefix: prefix, Requests: reqs,
 				Faults: []FaultSpec{faultConnUp("T1")}, FaultBudget: 1, HoldBudget: 1, HoldDepth: 3}, before: before, change: change},
 			c06Sched{sc: &Scenario{Name: "R4 change and its rollback on T1, connected; the device restarts; one crash and one step split", Cfg: one, Init: connectAll("T1"), Prefix: prefix, Requests: reqs,
-				Faults: []FaultSpec{faultDeviceRestart("T1")}, FaultBudget: 1, CrashBudget: 1, HoldBudget: 1, HoldDepth: 4, MaxStates: 1500000}, before: before, change: change})
+				Faults: []FaultSpec{faultDeviceRestart("T1")}, FaultBudget: 1, CrashBudget: 1, HoldBudget: 1, HoldDepth: 4, MaxStates: 300000}, before: before, change: change})
 	}
 	return out
 }
